@@ -196,6 +196,56 @@ async def t_native_cancel_through_cancelled_scope(p: dict) -> Any:
     return [("task", seen.get("task")), ("cancelling_after_scope", seen.get("cancelling_after_scope"))]
 
 
+F36_CLEANUP = "scope:native-cancellation-arriving-while-the-scope's-own-cancellation-unwinds-is-absorbed"
+
+
+async def t_native_fires_during_cleanup(p: dict) -> Any:
+    """asyncio.timeout() / asyncio.TaskGroup AROUND an AnyIO scope whose cancellation is
+    still unwinding (a finally block that awaits) when the native construct fires: the
+    timeout expires, or a sibling of the native group fails.  Twin: the same program with the
+    scope never cancelled (the body then simply waits).  The native construct must win in both:
+    TimeoutError / the group's error, raised at the same virtual instant"""
+    from anyio import CancelScope
+
+    loop = asyncio.get_running_loop()
+    t0 = loop.time()
+    out: list = []
+
+    async def body() -> None:
+        with CancelScope() as s:
+            if p["cancel"]:
+                loop.call_later(1, s.cancel)
+
+            try:
+                await asyncio.sleep(50)
+            finally:
+                # clean-up that takes time (virtual seconds 1..4 when the scope is cancelled)
+                with CancelScope(shield=True):
+                    await asyncio.sleep(3)
+
+        out.append(("left-scope-normally-at", round(loop.time() - t0, 3)))
+        await asyncio.sleep(50)
+        out.append(("not-interrupted",))
+
+    async def failing_sibling() -> None:
+        await asyncio.sleep(2)
+        raise RuntimeError("sibling")
+
+    try:
+        if p["via"] == "timeout":
+            async with asyncio.timeout(2):
+                await body()
+        else:
+            async with asyncio.TaskGroup() as g:
+                g.create_task(failing_sibling())
+                await body()
+    except BaseException as e:  # noqa: BLE001
+        out.append(("raised", type(e).__name__))
+
+    out.append(("cancelling", asyncio.current_task().cancelling()))
+    return out
+
+
 F21_EAGER = "eager-3.12:scope-cancelled-by-eagerly-started-native-child-while-its-host-is-running"
 
 
@@ -278,6 +328,9 @@ def cases():  # noqa: ANN201
             for awaits in (0, 1, 2):
                 yield {"t": "native_child_cancels", "cfg": cfg, "via": via, "awaits": awaits}
 
+        for via in ("timeout", "taskgroup"):
+            yield {"t": "native_during_cleanup", "cfg": cfg, "via": via}
+
 
 def execute(case: dict) -> dict:
     viol: list = []
@@ -306,6 +359,18 @@ def execute(case: dict) -> dict:
         if with_cancel != twin:
             viol.append(("C05", "native-construct-behaves-differently-after-absorbed-cancellation",
                          results))  # fmt: skip
+    elif case["t"] == "native_during_cleanup":
+        with_cancel = go(t_native_fires_during_cleanup, dict(case, cancel=True))
+        twin = go(t_native_fires_during_cleanup, dict(case, cancel=False))
+        results = {"with_cancelled_scope": with_cancel, "twin": twin}
+        out["windows"]["native_construct_fires_while_scope_cancellation_unwinds"] = 1
+        a = [x for x in with_cancel if x[0] != "left-scope-normally-at"]
+        if a != twin:
+            # F36: the native CancelledError is raised inside the handler of the scope's own
+            # cancellation, is chained to it implicitly and so passes for AnyIO's at the exit
+            mech = F36_CLEANUP if any(x[0] == "left-scope-normally-at" for x in with_cancel) else None
+            viol.append(("C05", "native-construct-behaves-differently-around-a-cancelled-scope",
+                         results, mech))  # fmt: skip
     elif case["t"] == "native_child_cancels":
         res = go(t_native_child_cancels_scope, case)
         results = {"observed": res}
